@@ -37,7 +37,7 @@ def gen_case(rng, acc, clean=False):
 
     clean=True stays outside the trigger features of the known formatter findings (multi-line block comments, comments
     around `else`), so that any violation found there is a new one."""
-    prog = P.generate(rng, {"max_bytes": 250, "top_stmts": 9})
+    prog = P.generate(rng, {"max_bytes": 250, "top_stmts": 9, "p_test": 0.35})
     lay = render.Hostile(rng, crlf=rng.random() < 0.2, multiline_block=not clean, else_comments=not clean)
     prog.clean = clean
     prog.has_else = any(s.k == "if" and s.else_ is not None for s in prog.all_stmts())
